@@ -22,6 +22,8 @@ PROP == IF "PROP" \in DOMAIN IOEnv THEN IOEnv.PROP ELSE "ALL"
 (* Which property a failed check is evidence against.  A failure that is not attributed to PROP
    is counted as "foreign" (register 46), the abstract state is re-synchronised with the
    observation and validation continues, so a check never raises an alarm for another property. *)
+ParOps == {"par_iter", "par_drain", "into_par_iter", "par_extend", "par_eq", "par_union", "par_intersection", "par_difference",
+           "par_symmetric_difference", "par_is_subset", "par_is_superset", "par_is_disjoint"}
 EntryOps == {"e_or_insert", "e_or_insert_with", "e_or_insert_with_key", "e_and_modify_or_insert", "e_insert", "e_remove",
              "e_remove_entry", "e_occ_insert", "e_occ_get_mut", "e_replace_some", "e_replace_none", "e_and_replace_some",
              "e_and_replace_none", "e_vacant_drop", "e_insert_entry", "e_into_key", "er_or_insert", "er_insert",
@@ -36,6 +38,7 @@ OpProp(op, kind) ==
    ELSE IF op \in RawEntryOps THEN {"C14"}
    ELSE IF op \in {"retain", "extract_if", "t_extract_if", "drain"} THEN {"C10"} \cup KindProp(kind)
    ELSE IF op \in {"iter", "into_iter"} THEN {"C09"}
+   ELSE IF op \in ParOps THEN {"C19"}
    ELSE IF op \in {"clone", "clone_from", "eq"} THEN {"C11"} \cup (IF kind = "set" /\ op = "eq" THEN {"C07"} ELSE {})
    ELSE IF op \in {"get_many_mut", "get_many_kv_mut", "t_get_many_mut"} THEN {"C15"} \cup KindProp(kind)
    ELSE IF op \in {"s_entry_insert", "s_entry_or_insert", "s_entry_remove", "s_entry_get", "s_entry_into_value"} THEN {"C14", "C07"}
@@ -342,7 +345,7 @@ OpStep(e) ==
           [] e.op = "clone" -> NoIds(obsT[u]) = NoIds(pre) /\ obsT[t] = pre
           [] e.op = "clone_from" -> NoIds(obsT[t]) = exp
           [] e.op = "iter" -> obsT[t] = pre /\ IterStrict(e)
-          [] e.op \in OpForms -> TRUE
+          [] e.op \in OpForms \cup {"par_extend"} -> TRUE    \* (chunking of the collected input is schedule-dependent)
           [] e.op \in {"or_assign", "xor_assign"} -> NoIds(obsT[t]) = NoIds(exp)
           [] OTHER -> obsT[t] = exp
   IN /\ IF mine # {} THEN Fail(l, {b[1] : b \in mine}) ELSE TRUE
